@@ -623,10 +623,19 @@ fn plan(property: &str, tier: &str) -> Option<Plan> {
 
 const PRESCREEN_INPUTS: [[u8; 8]; 2] = [[1, 2, 3, 4, 5, 6, 7, 8], [0, 255, 7, 0, 128, 1, 9, 3]];
 
+const PRESCREEN_MORE_INPUTS: [[u8; 8]; 4] = [[0, 0, 0, 0, 0, 0, 0, 0], [3, 5, 4, 2, 1, 0, 6, 7], [255, 254, 2, 128, 127, 64, 1, 200], [2, 2, 2, 2, 2, 2, 2, 2]];
+
 fn prescreen_one(code: &str) -> bool {
     let configs: [(Backend, u32); 6] = [(Backend::Ir, 1), (Backend::Ir, 3), (Backend::Bc, 0), (Backend::Bc, 3), (Backend::Jit, 0), (Backend::Jit, 3)];
-    for w in [8u32, 64] {
-        for inp in PRESCREEN_INPUTS.iter() {
+    // development aid: SYMX_PRESCREEN_DEEP=1 screens with six inputs at all four widths (a hunt, not part of any check)
+    let deep = std::env::var("SYMX_PRESCREEN_DEEP").is_ok();
+    let widths: &[u32] = if deep { &[8, 16, 32, 64] } else { &[8, 64] };
+    let mut inputs: Vec<[u8; 8]> = PRESCREEN_INPUTS.to_vec();
+    if deep {
+        inputs.extend(PRESCREEN_MORE_INPUTS.iter().copied());
+    }
+    for &w in widths {
+        for inp in inputs.iter() {
             let base = Case {
                 property: "prescreen".into(), backend: Backend::Inplace, width: w, level: 0, mode: Mode::Limited(2_000_000), program: code.to_string(), input: inp.to_vec(),
                 fail_read_at: None, fail_write_at: None, out_ok0: false, no_input: false, no_output: false, note: String::new(), profile: String::new(), guard: 0,
